@@ -345,6 +345,10 @@ impl ty::TyModule {
         let diagnostics_mark = handler.mark();
 
         // Type-check submodules first in order of evaluation previously computed by the dependency graph.
+        // A submodule may import items of the submodules evaluated before it (`use ::sibling::Item`).
+        // The module cache does not record those edges, so once one submodule had to be type-checked
+        // again, the cached typed modules of the ones after it cannot be trusted either.
+        let mut earlier_sibling_was_rechecked = false;
         let submodules_res = module_eval_order
             .iter()
             .map(|eval_mod_name| {
@@ -354,12 +358,27 @@ impl ty::TyModule {
                     .unwrap();
 
                 // Try to get the cached submodule
-                if let Some(cached_module) = ty::TyModule::get_cached_ty_module_if_up_to_date(
-                    handler,
-                    submodule.module.span.source_id(),
-                    engines,
-                    build_config,
-                ) {
+                let cached_module = if earlier_sibling_was_rechecked {
+                    if let Some(source_id) = submodule.module.span.source_id() {
+                        let path = engines.se().get_path(source_id);
+                        let include_tests = build_config.is_some_and(|x| x.include_tests);
+                        engines
+                            .qe()
+                            .clear_typed_module_cache_entry(&ModuleCacheKey::new(
+                                path.into(),
+                                include_tests,
+                            ));
+                    }
+                    None
+                } else {
+                    ty::TyModule::get_cached_ty_module_if_up_to_date(
+                        handler,
+                        submodule.module.span.source_id(),
+                        engines,
+                        build_config,
+                    )
+                };
+                if let Some(cached_module) = cached_module {
                     // If cached, restore namespace module and return cached TySubmodule
                     let (ty_module, namespace_module) = cached_module;
                     ctx.namespace_mut()
@@ -373,6 +392,7 @@ impl ty::TyModule {
                     Ok::<(BaseIdent, ty::TySubmodule), ErrorEmitted>((name.clone(), ty_submod))
                 } else {
                     // If not cached, type-check the submodule
+                    earlier_sibling_was_rechecked = true;
                     let type_checked_submodule = ty::TySubmodule::type_check(
                         handler,
                         ctx.by_ref(),
